@@ -185,9 +185,8 @@ def _worker(args):
                         firsts.append(x)
                 unknown = any(x["cls"] == "other" for x in firsts)
                 r["failing"].append((h if unknown else HL.strip_exec(h), firsts, unknown))
-            if not m.upd_open:
-                encode(h, f)
-                dom.append(h)
+            encode(h, f)
+            dom.append(h)
     rc, out, dt = vlib.sh("%s < %s" % (exe, inp), timeout=6000)
     os.remove(inp)
     if rc != 0:
